@@ -137,8 +137,8 @@ Theorem C14_static_sorted : forall raw auto servers,
   /\ Forall raw_v6 raw.
 Proof. exact parse_rdnss_spec. Qed.
 
-(* a server list is accepted exactly when every entry is an IPv6 address and no address (:: included)
-   is written twice *)
+(* a server list is accepted exactly when every entry is an IPv6 address without a zone ([raw_v6]: an
+   [RS6] atom) and no address (:: included) is written twice *)
 Theorem C14_static_accepts : forall raw,
   is_ok (parse_rdnss raw) = true <-> Forall raw_v6 raw /\ NoDup (raw_addrs raw).
 Proof. exact parse_rdnss_accepts. Qed.
